@@ -89,8 +89,9 @@ PROPS = {
         "level_note": "Trusted: census is one call level deep and syntactic.",
     },
     "C15": {
-        "streams": [("validate", 3000, 40000)],
-        "level_text": "Proof: on the validation model with its option guards exactly as written, acceptance is monotone in the option set for every input and every pair O <= O' (batch and file level); regenerated census of every reference to the 15 relaxation flags in package ach: in acceptance code each is 'if !flag {may reject}' or 'if flag {return nil}' - an inverted or new tightening guard breaks the obligation. Reader-level monotonicity on real texts: oracle over chains and all 2^15 sets on a corpus.",
+        "props_modules": ["Ach.Props.Dispatch", "Ach.Props.C15"],
+        "streams": [("validate", 3000, 40000), ("reader", 2000, 40000)],
+        "level_text": "Proof: on the validation model with its option guards exactly as written, acceptance is monotone in the option set for every input and every pair O <= O' (batch and file level); regenerated census of every reference to the 15 relaxation flags in package ach: in acceptance code each is 'if !flag {may reject}' or 'if flag {return nil}' - an inverted or new tightening guard breaks the obligation. On the model of the Reader's record dispatcher, a record sequence Read accepts stays accepted when more of the record- and batch-level validations succeed and when a missing file header/control becomes allowed, so monotonicity of the validators lifts to Read. Independence of field extraction from the flags, and real texts: oracle over chains and all 2^15 sets on a corpus.",
         "level_note": "Trusted: record-level checks are opaque option-independent conjuncts in the model; their monotonicity is what the guard census stands for.",
     },
     "C16": {
